@@ -3,7 +3,9 @@
   R19.create   the only file-creating API reachable in crate polytune is tempfile::tempfile_in
                (anonymous, already unlinked): nothing can remain in the directory
   R19.order    in FileOrMemBuf::iter and ::chunks: flush()? -> rewind()? -> BufReader::new  (dominance)
-  R19.drop     Iter and ChunkIter both have a Drop impl whose file arm reaches seek(SeekFrom::End(0))
+  R19.drop     the shared file offset is restored after reading: Iter and ChunkIter have a Drop impl reaching
+               seek(SeekFrom::End(0)), or write_chunk seeks to the end before writing (if under a writer flag, every
+               reader constructor sets that flag)
                (writer and reader share one OS file offset: append-after-read needs it)
   R19.flush    TrackWrite::flush forwards to the BufWriter (otherwise R19.order's flush is a no-op)
   R19.sibling  every method of FileOrMemBuf / Iter / ChunkIter switches on the variant and handles
@@ -16,7 +18,7 @@
                from the same Context method (memory variant re-chunks by that parameter)
 """
 from mir import callee, callee_names
-from an import (SliceInfo, ret_blocks, edge_fail_closed, where, root_local, defs_of, CallGraph)
+from an import (SliceInfo, ret_blocks, edge_fail_closed, where, root_local, defs_of, CallGraph, control_deps)
 from env import engine, CTX, CIRC, find_owner
 from common import fl
 
@@ -126,31 +128,76 @@ def run(ctx, res):
         else:
             res.bad("R19.flush", "TrackWrite::flush", "TrackWrite::flush does not forward to the BufWriter on every path", fl(b.span))
     # ---------------------------------------------------------------- R19.drop
-    for ty in ("Iter", "ChunkIter"):
-        owner = "polytune::<utils::file_or_mem_buf::%s<'a, T> as core::ops::drop::Drop>::drop" % ty
-        fam = [(k, b) for k, b in fg.bodies.items() if b.owner == owner]
-        if not fam:
-            res.bad("R19.drop", ty, "%s has no Drop impl: the shared file offset is not restored after reading" % ty)
-            continue
-        k, b = fam[0]
-        ok = False
+    # The readers share the file offset with the writer. It is restored to the end either by the
+    # reader's Drop impl, or lazily by write_chunk (seek(End(0)) before encoding) - if that seek is
+    # guarded by a flag of the writer, every reader constructor has to set the flag.
+    def seeks_to_end(b):
+        out = []
         for bi, t in b.calls():
             if any(n.endswith("Seek::seek") or n.endswith("::seek") for n in callee_names(t)):
-                # argument must be SeekFrom::End(0)
                 a = t["args"][1] if len(t["args"]) > 1 else None
-                good_arg = False
                 if a is not None and a["k"] != "const":
                     for d in defs_of(b, a["p"]["l"]):
                         r = d[2]
-                        if d[1] != "t" and r["k"] == "agg" and r.get("variant") == "End" and r["ops"] and r["ops"][0]["k"] == "const" and r["ops"][0].get("v") == "0":
-                            good_arg = True
-                # the seek must be reached on the file arm: block dominated by the variant test, and
-                # every path from that arm to return passes through it
-                if good_arg and bi in b.live_blocks():
-                    ok = True
-                    res.ok("R19.drop", ty, where(b, bi), "Drop seeks the shared file to SeekFrom::End(0)")
-        if not ok:
-            res.bad("R19.drop", ty, "Drop for %s does not seek the file back to its end (SeekFrom::End(0))" % ty, fl(b.span))
+                        if d[1] != "t" and r["k"] == "agg" and r.get("variant") == "End" and r["ops"] and r["ops"][0]["k"] == "const" and r["ops"][0].get("v") == "0" and bi in b.live_blocks():
+                            out.append(bi)
+        return out
+    # lazy mechanism: seek(End(0)) reachable from write_chunk inside this module
+    lazy_flag = None      # None: no lazy seek; "": unconditional; "<field>": guarded by that writer field
+    wc = [k for k, b in fg.bodies.items() if b.owner.endswith("file_or_mem_buf::FileOrMemBuf::<T>::write_chunk")]
+    if wc:
+        for k in set(wc) | set(cg.closure(wc)):
+            b = fg.bodies[k]
+            if "file_or_mem_buf" not in b.owner:
+                continue
+            for sbi in seeks_to_end(b):
+                cd = control_deps(b)
+                guard = ""
+                for (sw, _s) in cd.get(sbi, ()):
+                    tt = b.blocks[sw]["t"]
+                    if tt["k"] != "switch" or tt["o"]["k"] == "const":
+                        continue
+                    for d in defs_of(b, tt["o"]["p"]["l"]):
+                        r = d[2]
+                        if d[1] != "t" and r["k"] == "use" and r["o"]["k"] != "const":
+                            fl_ = [e for e in r["o"]["p"]["pr"] if isinstance(e, dict) and e.get("n")]
+                            if fl_ and "TrackWrite" in (fl_[-1].get("a") or ""):
+                                guard = fl_[-1]["n"]
+                lazy_flag = guard
+    ctor = {"Iter": "iter", "ChunkIter": "chunks"}
+    for ty in ("Iter", "ChunkIter"):
+        owner = "polytune::<utils::file_or_mem_buf::%s<'a, T> as core::ops::drop::Drop>::drop" % ty
+        fam = [(k, b) for k, b in fg.bodies.items() if b.owner == owner]
+        if fam:
+            k, b = fam[0]
+            se = seeks_to_end(b)
+            if se:
+                res.ok("R19.drop", ty, where(b, se[0]), "Drop seeks the shared file to SeekFrom::End(0)")
+                continue
+            if lazy_flag is None:
+                res.bad("R19.drop", ty, "Drop for %s does not seek the file back to its end (SeekFrom::End(0))" % ty, fl(b.span))
+                continue
+        if lazy_flag is None:
+            res.bad("R19.drop", ty, "%s has no Drop impl and write_chunk does not seek to the end either: the shared file offset is not restored after reading" % ty)
+            continue
+        if lazy_flag == "":
+            res.ok("R19.drop", ty, "", "write_chunk seeks the shared file to SeekFrom::End(0) before every write")
+            continue
+        # guarded by a flag: the constructor of this reader must set it before the reader exists
+        mo = [(k, b) for k, b in fg.bodies.items() if b.owner.endswith("file_or_mem_buf::FileOrMemBuf::<T>::%s" % ctor[ty]) and b.id == b.owner]
+        sets = []
+        for k, b in mo:
+            for bi, blk in enumerate(b.blocks):
+                for st in blk["s"]:
+                    if st["k"] == "assign" and st["r"]["k"] == "use" and st["r"]["o"]["k"] == "const" and st["r"]["o"].get("v") in ("true", "1"):
+                        fl_ = [e for e in st["p"]["pr"] if isinstance(e, dict) and e.get("n")]
+                        if fl_ and fl_[-1]["n"] == lazy_flag and bi in b.live_blocks():
+                            sets.append((b, bi))
+        if sets:
+            res.ok("R19.drop", ty, where(sets[0][0], sets[0][1]), "write_chunk seeks to the end when `%s` is set, and %s() sets it" % (lazy_flag, ctor[ty]))
+        else:
+            res.bad("R19.drop", ty, "write_chunk only seeks back to the end of the file when `%s` is set, but FileOrMemBuf::%s() moves the shared offset without setting it: an append after %s() overwrites earlier chunks (the memory variant keeps appending)" % (lazy_flag, ctor[ty], ctor[ty]),
+                    fl(mo[0][1].span) if mo else "")
     # ---------------------------------------------------------------- R19.sibling
     methods = {
         FOM + "FileOrMemBuf::<T>::iter": 2, FOM + "FileOrMemBuf::<T>::chunks": 2, FOM + "FileOrMemBuf::<T>::write_chunk": 2,
